@@ -31,15 +31,19 @@ claimed = {
    ref="7 (C04)"),
  "C08": dict(
    text="Proof of the pool discipline (sequential): putJSONEncoder resets every field of the encoder before Put (the pool's Put requires the all-zero 'clean' state, Get returns it, so clone starts from a clean object); buffer.Pool.Get returns an empty buffer (reset on Get); getCheckedEntry/reset clear entry, error output, dirty flag, hook and cores; the error-array wrappers are cleared before Put on every path (zapcore.errArrayElem.Free, zap.errArray); Stack.Free clears pcs/frames; EncodeEntry's result is a function of the receiver's context bytes, the entry and the fields only (its contract mentions no pool state) and the buffer it returns is not referenced by the encoder any more; FullPath/TrimmedPath hand their scratch buffer back before returning and change no pre-existing byte.",
-   note=BASE_NOTE + "sync.Pool is modelled as 'Get returns an object nobody else holds, in the state the last Put (or New) left it'; New functions of the pools are trivial literals (not verified). The console encoder's slice-encoder pool and concurrent histories are not covered.",
+   note=BASE_NOTE + "sync.Pool is modelled as 'Get returns an object nobody else holds, in the state the last Put (or New) left it'; New functions of the pools are trivial literals (not verified). Concurrent histories are not covered.",
    ref="7 (C08)"),
  "C10": dict(
    text="Proof: Field.AddTo never panics for well-typed fields and leaves the JSON encoder well-formed in every case; a failing marshaler / Stringer / error / reflected value costs at most one extra '<key>Error' string member written after the field's own encoder call, and addFields calls AddTo exactly once per field whatever earlier ones did; encodeStringer/encodeError contain a panicking or nil String()/Error() (the path on which the callee panics is explored: the deferred function recovers, logs '<nil>' or reports PANIC=..., the function returns normally); AppendArray/AppendObject write the closing bracket also when the marshaler failed, AddReflected writes nothing when encoding failed; error arrays skip nil elements and free every wrapper; CheckedEntry.Write, multiCore.Write/Sync, multiWriteSyncer.Write/Sync and hooked.Write visit every core/sink/hook exactly once and fold all errors; ioCore.Write returns encoder or sink errors and frees the buffer on the sink-error path too.",
    note=BASE_NOTE + "User String()/Error()/MarshalLog* are arbitrary under the interface contracts (may panic / return errors); Error() of an error RETURNED by a marshaler is called outside a recover (a panic there propagates - not in the property's fault list, stated as an assumption); stringers[T] (zap.Stringers) calls String() bare and is not verified (no instance in the program).",
    ref="7 (C10)"),
+ "C16": dict(
+   text="Proof on the console encoder: the column sub-encoders run at most once each, in the fixed order time, level, name, caller, then the function column, each exactly when its key and encoder are set and the entry carries a value (call log with time stamps); one Fprint per collected column before the context; the message follows, preceded by the separator exactly when the line is non-empty, whenever its key is set; writeContext appends nothing when there is neither context nor field, otherwise the separator (when the line is non-empty) and exactly one well-formed JSON object (T-JSON automaton from start to accepting state) holding the context followed by the call-site fields with every namespace closed - rendered by a CLONE, the logger's own context encoder is not written (byte-level frame); the stack follows after a newline exactly when present and enabled; then the line ending. Clone/NewConsoleEncoder establish the fragment invariant of the embedded JSON encoder; pooled slice encoder truncated before Put.",
+   note=BASE_NOTE + "The text of the columns is produced by fmt.Fprint over the values the sub-encoders appended (outside: only 'one Fprint per column, in order, separator between' is decided); the JSON context inherits C01's assumptions. 'Same fields as the JSON encoder would emit' holds because both go through the same addFields on a jsonEncoder - not a separate obligation.",
+   ref="7 (C16)"),
  "C07": dict(
-   text="Proof of the derivation mechanisms with full frames: Logger.clone/With/Named/WithOptions/Sugar/Desugar write only the freshly allocated clone (*log == old(*log)), With(no fields) returns the receiver, Named joins with a dot exactly when both names are non-empty; Logger.check stamps the entry with the logger's own name and hands call-site fields on unchanged; every zap Core.With implementation (ioCore with the JSON encoder: a clone of the encoder with its own buffer gets exactly the new fields, the receiver's encoder and every pre-existing byte untouched; tee, sampler, hooked, level-filter, lazy, observer) is verified against the Core.With interface contract (result non-nil, no pre-existing Field, Core slice or byte array written), forwards exactly the given fields to the wrapped core and re-wraps it leaving the receiver unchanged; the observer's capacity-capped append leaves the parent's context array untouched (both append branches explored); the lazy core evaluates its With exactly once (sync.Once model) with the original fields.",
-   note=BASE_NOTE + "ioCore.With over the console encoder, Logger.WithLazy's option closure and the sugared With/Named/WithLazy wrappers are not yet under contract; the byte-level statement 'context bytes = parent bytes ++ enc(fields)' is part of the C01/C02 encoder contracts, not proved here. 'All orders of derivation and use' follows from the frames (no derivation writes a location reachable from another logger) - a paper step over the proved frames.",
+   text="Proof of the derivation mechanisms with full frames: Logger.clone/With/Named/WithOptions/Sugar/Desugar write only the freshly allocated clone (*log == old(*log)), With(no fields) returns the receiver, Named joins with a dot exactly when both names are non-empty; Logger.check stamps the entry with the logger's own name and hands call-site fields on unchanged; every zap Core.With implementation (ioCore with the JSON or console encoder: a clone of the encoder with its own buffer gets exactly the new fields, the receiver's encoder and every pre-existing byte untouched; tee, sampler, hooked, level-filter, lazy, observer) is verified against the Core.With interface contract (result non-nil, no pre-existing Field, Core slice or byte array written), forwards exactly the given fields to the wrapped core and re-wraps it leaving the receiver unchanged; the observer's capacity-capped append leaves the parent's context array untouched (both append branches explored); the lazy core evaluates its With exactly once (sync.Once model) with the original fields.",
+   note=BASE_NOTE + "Logger.WithLazy's option closure and the sugared With/Named/WithLazy wrappers are not yet under contract; the byte-level statement 'context bytes = parent bytes ++ enc(fields)' is part of the C01/C02 encoder contracts, not proved here. 'All orders of derivation and use' follows from the frames (no derivation writes a location reachable from another logger) - a paper step over the proved frames.",
    ref="7 (C07)"),
  "C09": dict(
    text="Proof of the synchronisation discipline, per function, on every path: guarded-by obligations at every load/store of _globalL/_globalS (under _globalMu), sinkRegistry.factories and _encoderNameToConstructor (under their mutexes), ObservedLogs.logs, BufferedWriteSyncer.{initialized,stopped,writer}; a coverage scan fails the check if any zap function touching a guarded location is not under contract; lock balance (Lock requires not held, Unlock requires held, released at every return incl. deferred unlocks); no blocking channel operation while BufferedWriteSyncer.mu is held (Stop, flushLoop); stop channel closed at most once (stopped <=> closed(stop)); lazyWithCore.core is stored only inside the Once.Do function and loaded only after the Once completed on the same path; Enabled reads only the immutable originalCore; no-panic (nil, index, type-assertion, close safety) for all these functions.",
